@@ -885,6 +885,17 @@ func (e *SpecEnv) evalCall(n *SCall) SVal {
 		}
 		vc.sorts.boxFn(t)
 		return SVal{fmt.Sprintf("(= (Iface_tag %s) %d)", arg(0).T, vc.sorts.tagOf(t)), stBool}
+	case "implements":
+		// implements(i, I): the dynamic type of interface value i implements interface type I
+		// (the predicate a comma-ok type assertion to I tests)
+		id := n.Args[1].String()
+		t := vc.resolveGoType(id, e.pkg)
+		if t == nil {
+			specFail("implements: unknown type %s", id)
+		}
+		fn := smtSym("implements:" + typeKey(t))
+		vc.sorts.declFun(fn, []string{"Int"}, "Bool")
+		return SVal{fmt.Sprintf("(and (not (= %s Iface_nil)) (%s (Iface_tag %s)))", arg(0).T, fn, arg(0).T), stBool}
 	case "go_div":
 		return SVal{vc.goDiv(e.evalInt(n.Args[0]), e.evalInt(n.Args[1])), stInt}
 	case "go_mod":
